@@ -83,6 +83,144 @@ FACADE = {
     "get_all_rules": ("get_all_rules", False),
     "reset_rules": ("enableOnly", False),
 }
+RULER_OPS = {"enable", "disable", "enableOnly", "get_active_rules", "get_all_rules", "getRules", "push", "at", "before", "after"}
+
+
+class _Ops:
+    """Which (ruler, operation, first argument) calls does a facade method make - following private helpers of the same
+    class (with their parameters bound to the actual arguments), generator helpers that yield the rulers, local aliases of
+    a ruler or of a bound method, and `a if flag else b` selections on a constant flag."""
+
+    def __init__(self, c: Ctx) -> None:
+        self.c = c
+        self.out: list[tuple[str, str, str, ast.AST, Func]] = []      # (ruler, op, first arg text, call node, function)
+        self.unresolved: list[tuple[ast.AST, Func]] = []
+
+    def _const(self, e: ast.AST, binds: dict[str, ast.AST]) -> ast.AST:
+        seen = 0
+        while isinstance(e, ast.Name) and e.id in binds and seen < 5:
+            e = binds[e.id]
+            seen += 1
+        return e
+
+    def _defs(self, f: Func, name: str) -> list[ast.AST]:
+        out = []
+        for n in own_nodes(f.node):
+            if isinstance(n, ast.Assign) and any(isinstance(t, ast.Name) and t.id == name for t in n.targets):
+                out.append(n.value)
+            elif isinstance(n, ast.AnnAssign) and isinstance(n.target, ast.Name) and n.target.id == name and n.value is not None:
+                out.append(n.value)
+        return out
+
+    def rulers(self, f: Func, e: ast.AST, binds: dict[str, ast.AST], at: ast.AST, depth: int = 0) -> set[str]:
+        if depth > 5:
+            return {"?"}
+        selfn = f.node.args.args[0].arg if f.node.args.args else "self"
+        if isinstance(e, ast.IfExp):
+            t = self._const(e.test, binds)
+            if isinstance(t, ast.Constant):
+                return self.rulers(f, e.body if t.value else e.orelse, binds, at, depth + 1)
+            return self.rulers(f, e.body, binds, at, depth + 1) | self.rulers(f, e.orelse, binds, at, depth + 1)
+        if isinstance(e, ast.Attribute) and e.attr in ("ruler", "ruler2"):
+            base = e.value
+            chains: set[str] = set()
+            if isinstance(base, ast.Attribute) and isinstance(base.value, ast.Name) and base.value.id == selfn and base.attr in ("core", "block", "inline"):
+                chains = {base.attr}
+            elif isinstance(base, ast.Subscript) and isinstance(base.value, ast.Name) and base.value.id == selfn:
+                k = self._const(base.slice, binds)
+                if isinstance(k, ast.Constant) and isinstance(k.value, str):
+                    chains = {k.value}
+                elif isinstance(k, ast.Name):
+                    chains = _loop_literals(f, k.id, at)
+            elif isinstance(base, ast.Name):
+                # component = self[chain]
+                for d in self._defs(f, base.id):
+                    fake = ast.Attribute(value=d, attr=e.attr, ctx=ast.Load())
+                    chains |= {x for x in self.rulers(f, fake, binds, at, depth + 1)}
+                return chains or {"?"}
+            if not chains:
+                return {"?"}
+            if e.attr == "ruler2":
+                return {"inline2"} if chains == {"inline"} else {"?"}
+            return chains
+        if isinstance(e, ast.Name):
+            if e.id in binds:
+                return self.rulers(f, binds[e.id], binds, at, depth + 1)
+            out: set[str] = set()
+            ds = self._defs(f, e.id)
+            for d in ds:
+                out |= self.rulers(f, d, binds, at, depth + 1)
+            # loop variable over a generator helper / a literal list of rulers
+            for n in own_nodes(f.node):
+                if isinstance(n, (ast.For, ast.comprehension)) and isinstance(n.target, ast.Name) and n.target.id == e.id:
+                    it = n.iter
+                    if isinstance(it, ast.Call):
+                        cs = self.c.cg.site_of.get(it)
+                        for g in (cs.callees if cs is not None else []):
+                            for y in own_nodes(g.node):
+                                if isinstance(y, ast.Yield) and y.value is not None:
+                                    out |= self.rulers(g, y.value, {}, y, depth + 1)
+                            for rt in own_nodes(g.node):
+                                if isinstance(rt, ast.Return) and isinstance(rt.value, (ast.List, ast.Tuple)):
+                                    for x in rt.value.elts:
+                                        out |= self.rulers(g, x, {}, rt, depth + 1)
+                    elif isinstance(it, (ast.List, ast.Tuple)):
+                        for x in it.elts:
+                            out |= self.rulers(f, x, binds, at, depth + 1)
+            return out or {"?"}
+        return {"?"}
+
+    def collect(self, f: Func, binds: dict[str, ast.AST], depth: int = 0) -> None:
+        if depth > 3:
+            return
+        selfn = f.node.args.args[0].arg if f.node.args.args else "self"
+        for call in [n for n in own_nodes(f.node) if isinstance(n, ast.Call)]:
+            fn = call.func
+            # helper of the same class
+            if isinstance(fn, ast.Attribute) and isinstance(fn.value, ast.Name) and fn.value.id == selfn and f.cls:
+                g = self.c.p.method(f.cls, fn.attr)
+                if g is not None and g is not f and fn.attr not in FACADE and not g.is_property:
+                    params = [a.arg for a in g.node.args.args[1:]]
+                    nb: dict[str, ast.AST] = {}
+                    for pname, a in zip(params, call.args):
+                        nb[pname] = self._const(a, binds)
+                    for k in call.keywords:
+                        if k.arg:
+                            nb[k.arg] = self._const(k.value, binds)
+                    if any(isinstance(y, (ast.Yield, ast.YieldFrom)) for y in own_nodes(g.node)):
+                        continue          # generator helpers are followed where they are iterated
+                    self.collect(g, nb, depth + 1)
+                    continue
+            target = None
+            op = None
+            if isinstance(fn, ast.Attribute) and fn.attr in RULER_OPS:
+                target, op = fn.value, fn.attr
+            elif isinstance(fn, ast.Name):
+                # switch = ruler.enable if enabled else ruler.disable
+                for d in self._defs(f, fn.id):
+                    dd = d
+                    if isinstance(dd, ast.IfExp):
+                        t = self._const(dd.test, binds)
+                        if isinstance(t, ast.Constant):
+                            dd = dd.body if t.value else dd.orelse
+                    if isinstance(dd, ast.Attribute) and dd.attr in RULER_OPS:
+                        target, op = dd.value, dd.attr
+                    elif isinstance(dd, ast.Call) and isinstance(dd.func, ast.Name) and dd.func.id == "getattr" and len(dd.args) == 2:
+                        nm = self._const(dd.args[1], binds)
+                        if isinstance(nm, ast.IfExp):
+                            t = self._const(nm.test, binds)
+                            if isinstance(t, ast.Constant):
+                                nm = nm.body if t.value else nm.orelse
+                        if isinstance(nm, ast.Constant) and nm.value in RULER_OPS:
+                            target, op = dd.args[0], nm.value
+            if target is None or op is None:
+                continue
+            rs = self.rulers(f, target, binds, call)
+            if not (rs - {"?"}) and "?" in rs and not any(x in U(target) for x in ("ruler",)) and not isinstance(target, ast.Name):
+                continue
+            a0 = self._const(call.args[0], binds) if call.args else None
+            for rname in sorted(rs):
+                self.out.append((rname, op, U(a0) if a0 is not None else "", call, f))
 
 
 def rule_fanout(c: Ctx) -> RuleResult:
@@ -91,52 +229,56 @@ def rule_fanout(c: Ctx) -> RuleResult:
     for mname, (op, same_arg) in FACADE.items():
         f = c.p.func(f"main.py:MarkdownIt.{mname}")
         r.functions += 1
-        calls = [n for n in own_nodes(f.node) if isinstance(n, ast.Call) and isinstance(n.func, ast.Attribute)
-                 and isinstance(n.func.value, ast.Attribute) and n.func.value.attr in ("ruler", "ruler2")]
-        cover: dict[str, list[ast.Call]] = {}
-        other_ops: list[ast.Call] = []
-        for call in calls:
-            tg = _ruler_targets(f, call)
-            if call.func.attr == op:            # type: ignore[attr-defined]
-                for t in tg:
-                    cover.setdefault(t, []).append(call)
-            elif call.func.attr in ("enable", "disable", "enableOnly") and mname != "reset_rules":       # type: ignore[attr-defined]
-                other_ops.append(call)
-            elif mname == "reset_rules" and call.func.attr in ("enable", "disable"):      # type: ignore[attr-defined]
-                other_ops.append(call)
-        missing = sorted(RULERS - set(cover))
+        ops = _Ops(c)
+        ops.collect(f, {})
+        mine = [o for o in ops.out if o[1] == op]
+        switching = {"enable", "disable", "enableOnly"}
+        others = [o for o in ops.out if o[1] != op and o[1] in switching and op in switching]
+        cover = {o[0] for o in mine}
         key = f"{f.short}|{op}"
         if "?" in cover:
-            r.add(key, c.where(f, f.node), f.short, f"{op} on the four rulers", "violation",
+            bad = next(o for o in mine if o[0] == "?")
+            r.add(key, c.where(bad[4], bad[3]), f.short, U(bad[3])[:70], "violation",
                   f"a `{op}` call has a receiver that cannot be resolved to one of the four rulers")
             continue
-        if missing or other_ops:
+        missing = sorted(RULERS - cover)
+        if missing or others:
             why = (f"rulers {missing} are not reached by `{op}`" if missing else "") + \
-                  ("; " if missing and other_ops else "") + \
-                  (f"`{U(other_ops[0].func)}` is used where `{op}` is applied to the other rulers" if other_ops else "")
-            r.add(key, c.where(f, other_ops[0] if other_ops else f.node), f.short, f"{op} on the four rulers", "violation",
+                  ("; " if missing and others else "") + \
+                  (f"`{U(others[0][3].func)}` ({others[0][1]}) is used where `{op}` is applied to the other rulers" if others else "")
+            anchor = others[0] if others else None
+            r.add(key, c.where(anchor[4], anchor[3]) if anchor else c.where(f, f.node), f.short, f"{op} on the four rulers", "violation",
                   why + ": a rule registered in several rulers (emphasis, strikethrough, linkify) would be switched in one and stay "
                   "as it was in another")
             continue
         if same_arg:
             pname = f.node.args.args[1].arg
-            args = {U(call.args[0]) if call.args else "?" for cs in cover.values() for call in cs}
+            args = {o[2] for o in mine}
             if args != {pname}:
                 r.add(key, c.where(f, f.node), f.short, f"{op} on the four rulers", "violation",
                       f"the rulers are asked about different name lists {sorted(args)} (expected the caller's `{pname}` everywhere): a "
                       f"name found in one ruler is no longer applied to the others")
                 continue
-            # the request must not be narrowed between the calls
-            stores = [n for n in own_nodes(f.node) if isinstance(n, (ast.Assign, ast.AugAssign)) and any(
-                isinstance(t, ast.Name) and t.id == pname for t in (n.targets if isinstance(n, ast.Assign) else [n.target]))]
-            bad = [s for s in stores if not (isinstance(s, ast.Assign) and isinstance(s.value, ast.List) and len(s.value.elts) == 1
-                                             and U(s.value.elts[0]) == pname)]
-            if bad:
-                r.add(key, c.where(f, bad[0]), f.short, U(bad[0])[:70], "violation",
-                      f"`{pname}` is rewritten inside the method: the four rulers do not receive the same request")
+            funcs = {o[4] for o in mine} | {f}
+            bad_store = None
+            for g in funcs:
+                gp = pname if g is f else None
+                names_in_g = {pname}
+                for n in own_nodes(g.node):
+                    if isinstance(n, (ast.Assign, ast.AugAssign)):
+                        tg = n.targets if isinstance(n, ast.Assign) else [n.target]
+                        for t in tg:
+                            if isinstance(t, ast.Name) and t.id in {a.arg for a in g.node.args.args} and any(o[4] is g and U(o[3].args[0]) == t.id for o in mine if o[3].args):
+                                ok_norm = isinstance(n, ast.Assign) and isinstance(n.value, ast.List) and len(n.value.elts) == 1 and U(n.value.elts[0]) == t.id
+                                if not ok_norm:
+                                    bad_store = (g, n)
+            if bad_store:
+                r.add(key, c.where(bad_store[0], bad_store[1]), f.short, U(bad_store[1])[:70], "violation",
+                      f"the name list is rewritten inside the method: the four rulers do not receive the same request")
                 continue
         r.add(key, c.where(f, f.node), f.short, f"{op} on the four rulers", "discharged",
-              f"`{op}` reaches core, block, inline and inline2" + (" with the caller's name list" if same_arg else ""))
+              f"`{op}` reaches core, block, inline and inline2" + (" with the caller's name list" if same_arg else "") +
+              (" (through " + ", ".join(sorted({o[4].short for o in mine if o[4] is not f})) + ")" if any(o[4] is not f for o in mine) else ""))
     # reset_rules: the snapshot comes from get_active_rules and each ruler gets its own chain's list back
     f = c.p.func("main.py:MarkdownIt.reset_rules")
     snap = [n for n in own_nodes(f.node) if isinstance(n, ast.Assign) and isinstance(n.value, ast.Call) and U(n.value.func).endswith("get_active_rules")]
